@@ -185,7 +185,25 @@ def r_iter_next(it, ctx, callee, args):
     return some(slot_ref(r, p))
 
 
-@rmodel(r"<std::slice::Iter<Arc<DoraThread>> as Iterator>::any")
+@rmodel(r"<I as Iterator>::next")
+def r_generic_next(it, ctx, callee, args):
+    """`it.next()` inside the re-implemented adaptors (drivers/src/adaptors.rs): dispatch on the iterator value"""
+    st = deref(args[0])
+    if isinstance(st, Tup) and st.name == "Iter:bvec":
+        return r_iter_next(it, ctx, callee, args)
+    if isinstance(st, Tup) and st.name and st.name.startswith("Iter:"):
+        from . import models as M
+        return M.m_iter_next(it, ctx, callee, args)
+    if isinstance(st, Tup) and st.name and st.name.split("::")[-1].startswith("DrvFilter"):
+        from .interp import TailCall, FnItem
+        return TailCall(FnItem("drv_filter_next"), [args[0]])
+    if isinstance(st, Tup) and st.name and st.name.split("::")[-1].startswith("DrvMap"):
+        from .interp import TailCall, FnItem
+        return TailCall(FnItem("drv_map_next"), [args[0]])
+    raise Inconclusive("next() of %r" % (st,))
+
+
+@rmodel(r"<std::slice::Iter<Arc<DoraThread>> as Iterator>::any-python-version-disabled")
 def r_iter_any(it, ctx, callee, args):
     st = deref(args[0])
     r, pos = st.fields
